@@ -1,7 +1,7 @@
 //! C04 — proof integrity: no altered version of a valid proof is accepted.
 use crate::choices::Choices;
 use crate::curves::{Curve, CurveTag};
-use crate::drive::{guarded, prog_pc, run_prover, run_verifier, ProveOpts, VerifyOpts};
+use crate::drive::{guarded, prog_pc, run_batch, run_prover, run_verifier, BatchMember, ProveOpts, VerifyOpts};
 use crate::mirror::ProofMirror;
 use crate::program::{gen_program, Cap, GenCfg, Program};
 use crate::props::c08::{fixture, rand_point};
@@ -42,6 +42,29 @@ pub fn judge<G: CurveTag>(prog: &Program, commitments: &[G], original: &[u8], mu
         return Outcome4::Panic(p);
     }
     if v.accepted() {
+        Outcome4::AcceptedDifferent
+    } else {
+        Outcome4::VerifyError
+    }
+}
+
+/// the same oracle through batch verification (the altered proof alone in a batch)
+pub fn judge_batch<G: CurveTag>(prog: &Program, commitments: &[G], original: &[u8], mutated: &[u8]) -> Outcome4 {
+    let d = match guarded(|| R1CSProof::<G>::from_bytes(mutated)) {
+        Err(p) => return Outcome4::Panic(p),
+        Ok(Err(_)) => return Outcome4::DecodeError,
+        Ok(Ok(d)) => d,
+    };
+    if d.to_bytes().ok().as_deref() == Some(original) {
+        return Outcome4::IdenticalObject;
+    }
+    let mut pv = prog.clone();
+    pv.cap_v = Cap::Big;
+    let (r, pn) = run_batch::<G>(&[BatchMember { prog: &pv, commitments, proof: &d }], 256, 11);
+    if let Some(p) = pn {
+        return Outcome4::Panic(p);
+    }
+    if matches!(r, Some(Ok(()))) {
         Outcome4::AcceptedDifferent
     } else {
         Outcome4::VerifyError
@@ -93,7 +116,10 @@ fn flip_chunk<G: CurveTag>(c: &FlipChunk, col: &mut Collector) -> Result<(), Fai
             col.evals_add(1);
             let mut m = o.clone();
             m[byte] ^= 1 << bit;
-            let r = judge::<G>(&fx.prog, &fx.commitments, o, &m);
+            let mut r = judge::<G>(&fx.prog, &fx.commitments, o, &m);
+            if r == Outcome4::VerifyError && (byte + bit) % 8 == 0 && judge_batch::<G>(&fx.prog, &fx.commitments, o, &m) == Outcome4::AcceptedDifferent {
+                r = Outcome4::AcceptedDifferent;
+            }
             record(col, &r);
             match r {
                 Outcome4::AcceptedDifferent => {
@@ -383,7 +409,10 @@ fn edit_case<G: CurveTag>(bytes: &[u8], col: &mut Collector) -> Result<(), Failu
                 let Some((desc, m2)) = compensating_edit::<G>(&m0, &chs, r, &prog_pc::<G>(&prog).B_blinding, sel, sel2, d, dp) else { continue };
                 let mutated = m2.to_bytes();
                 col.evals_add(1);
-                let res = judge::<G>(&prog, &p.commitments, o, &mutated);
+                let mut res = judge::<G>(&prog, &p.commitments, o, &mutated);
+                if res == Outcome4::VerifyError && judge_batch::<G>(&prog, &p.commitments, o, &mutated) == Outcome4::AcceptedDifferent {
+                    res = Outcome4::AcceptedDifferent;
+                }
                 record(col, &res);
                 if res == Outcome4::AcceptedDifferent {
                     return Err(Failure::new(
@@ -409,7 +438,11 @@ fn edit_case<G: CurveTag>(bytes: &[u8], col: &mut Collector) -> Result<(), Failu
             continue;
         }
         col.evals_add(1);
-        let r = judge::<G>(&prog, &p.commitments, o, &mutated);
+        let mut r = judge::<G>(&prog, &p.commitments, o, &mutated);
+        if r == Outcome4::VerifyError && judge_batch::<G>(&prog, &p.commitments, o, &mutated) == Outcome4::AcceptedDifferent {
+            col.class("accepted-only-by-batch_verify");
+            r = Outcome4::AcceptedDifferent;
+        }
         record(col, &r);
         let cj = || -> Value { json!({"program": prog.to_json(), "edit": desc, "original_hex": hex::encode(o), "mutated_hex": hex::encode(&mutated)}) };
         match &r {
